@@ -15,13 +15,13 @@ CLAIMS = {
  "C06": ("proof", "stamp transitions: free_node maps a live stamp g to -(g+1) keeping the high-water mark, Node::reuse yields high-water+1, new_node returns exactly that stamp, every other function leaves stamps unchanged (frame clauses); overflow freedom of the i16 arithmetic is an obligation.", "§4 C06", "machine integers are modelled exactly by Verus (overflow is an obligation)"),
  "C07": ("proof", "ghost free-list sequence: pop_front hands out the oldest free slot, free_node appends exactly once (or retires an exhausted slot), new_node recycles before growing and returns a slot that held no live node, all other slots untouched.", "§4 C07", "Vec<Node<T>> never holds usize::MAX elements (axiom_vec_node_len)"),
  "C08": ("proof", "payload and stamp frame clauses on every function under contract; get/get_mut/Index/IndexMut address exactly the slot of the id. 'Dropped exactly once' rests on Rust ownership and forbid(unsafe_code) and is a stated assumption.", "§4 C08", "Rust ownership semantics for Drop; Verus does not model Drop"),
+ "C09": ("proof", "constructors and step functions of all nine traversals are under contract: sibling/children iterators against the ghost deque walk(node) / children_seq(node) (the documented order), ancestors/predecessors/reverse_children step laws, next_traverse/prev_traverse equal the documented depth-first step and are proved mutually inverse, Traverse/ReverseTraverse stop exactly at End(root)/Start(root), Descendants::next returns the next Start edge of Traverse. The whole-tour theorem (balanced sequence, confinement to the subtree, pre-order of descendants) is not yet a discharged obligation and is not claimed.", "§4 C09", "the whole-tour characterisation is open (see DESIGN.md); step laws and inverse law are proved"),
+ "C10": ("proof", "next/next_back of children, following_siblings and preceding_siblings are verified against a ghost deque: front pulls pop the front, back pulls pop the back, both fused at empty; the three constructors are proved to establish the deque with the documented sequence (including parentless nodes, where the far end is found by walking).", "§4 C10", "none beyond the common trusted base"),
  "C11": ("proof", "accessor contracts: get/Index/IndexMut/get_node_id_at/count/is_empty/as_slice/usize::from/NonZeroUsize::from agree with the slot view. get_node_id (raw pointer arithmetic) is outside Verus and is not claimed as proved.", "§4 C11", "iter()/iter_mut()/Display delegate to std; get_node_id not under contract"),
  "C12": ("proof", "a removed slot has no links (part of wf, hence after every operation), no link of a live node targets a removed slot or an old generation, inserts with a removed id in either position are refused without change, Node::reuse starts with no links.", "§4 C12", "none beyond the common trusted base"),
  "C13": ("proof", "new/default/with_capacity/clear all yield the same three fields (empty, no free slots); reserve/with_capacity change nothing observable; every contract is a function of the three fields that derive(PartialEq) compares.", "§4 C13", "derive(Clone, PartialEq) are structural; Vec capacity guarantees are std's"),
 }
 NA = {
- "C09": "traversal contracts not yet written (in progress)",
- "C10": "double-ended iterator contracts not yet written (in progress)",
  "C14": "the pretty printer is &str scanning into fmt::Formatter; the installed Verus rejects str byte reasoning and format_args!, so no contract within reach can state the output text",
  "C15": "quantifies over macro input programs of a proc-macro built on syn/quote; verifying a hand-written model of it would be proving a model, a different family",
  "C16": "behaviour is serde_derive output against an arbitrary Serializer/Deserializer; there is no function of this crate to put a contract on",
